@@ -392,6 +392,9 @@ def run(ctx, rep):
     _c12.union_dispatch(ctx, rep)  # ArcUnion owners are counted on the block of the Arc they were made from (tag arithmetic, per-variant types)
     balance.rule_bal(ctx, rep)
     balance.rule_unw(ctx, rep)  # histories include operations that unwind: the count must still equal the owners afterwards
+    from . import c11 as _c11
+
+    _c11.rule_refcnt_pair(ctx, rep)  # arc-swap settles a guard's debt by comparing `as_ptr` with `into_ptr`: if the glue lets them differ it releases a count nobody owned
     rule_delta(ctx, rep)
     n = balance.rule_cbzero(ctx, rep)
     rep.floor("R-CBZERO", 2, "public callback borrowers that call their closure themselves (today five: with_raw_offset_arc, ThinArc::with_arc, with_arc_mut, OffsetArc::with_arc, ArcBorrow::with_arc; one may delegate to another)")
